@@ -259,6 +259,15 @@ func (e *didEnv) doc(shape string, did string) *didtypes.DIDDocument {
 	case "D6": // vm[k1 typed with the deprecated Secp256k1VerificationKey2018] auth[ref k1]
 		d = didtypes.NewDIDDocument(did, didtypes.WithVerificationMethods([]*didtypes.VerificationMethod{e.vm(did, 1, "Secp256k1VerificationKey2018")}),
 			didtypes.WithAuthentications([]didtypes.VerificationRelationship{ref(1)}))
+	case "D7": // id collision: vm[key1 = k1] auth[EMBEDDED method with the same id key1 but key k2] assertion[ref key1]
+		emb := e.vm(did, 1, es256k)
+		emb.PublicKeyBase58 = e.vm(did, 2, es256k).PublicKeyBase58
+		d = didtypes.NewDIDDocument(did, didtypes.WithVerificationMethods([]*didtypes.VerificationMethod{e.vm(did, 1, es256k)}),
+			didtypes.WithAuthentications([]didtypes.VerificationRelationship{didtypes.NewVerificationRelationshipDedicated(*emb)}),
+			didtypes.WithAssertionMethods([]didtypes.VerificationRelationship{ref(1)}))
+	case "D8": // one id shared by two methods holding the SAME key k1 (2019 type first, deprecated 2018 type second)
+		d = didtypes.NewDIDDocument(did, didtypes.WithVerificationMethods([]*didtypes.VerificationMethod{e.vm(did, 1, es256k), e.vm(did, 1, "Secp256k1VerificationKey2018")}),
+			didtypes.WithAuthentications([]didtypes.VerificationRelationship{ref(1)}))
 	case "De": // empty id, dedicated authentication method for k1 whose id names `did`
 		d = didtypes.DIDDocument{Authentications: []didtypes.VerificationRelationship{didtypes.NewVerificationRelationshipDedicated(*e.vm(did, 1, es256k))}}
 	default:
@@ -369,6 +378,23 @@ func didOps(e *didEnv, v didVariant) []explore.Op {
 	}
 	d1, d2 := e.DIDs[0], e.DIDs[1]
 	R1, R2 := e.R1, e.R2
+	// documents in which one method id occurs twice. The reference resolves an authentication entry the way the method
+	// specification does: an embedded method IS the key of that entry; a reference is looked up in verificationMethod.
+	// (D7: the embedded key k2 controls, k1 - listed under the same id at top level - does not. D8: both entries hold k1.)
+	ops = append(ops,
+		update(d1, d1, "D7", "D7", 1, 0, R1),
+		explore.Op{Name: "Update(d1,D1(d1),names=key1,signedBy=k2,via=R1)", Tx: func(w *world.World, m any) *world.TxSpec {
+			doc := e.doc("D1", d1)
+			return tx(R1, &didtypes.MsgUpdateDIDRequest{Did: d1, Document: doc, VerificationMethodId: e.vmID(d1, 1), Signature: e.sign(doc, seqOf(m, d1), 2), FromAddress: R1.Bech})
+		}},
+		create(d1, d1, "D8", 1, 0, R1),
+		update(d1, d1, "D8", "D8", 1, 0, R2),
+		// a did field that is a case variant of d1 (another, never-used DID) while the document is about d1
+		explore.Op{Name: "Create(did=caseVariant(d1),D1(d1),k1,via=R2)", Tx: func(w *world.World, m any) *world.TxSpec {
+			doc := e.doc("D1", d1)
+			return tx(R2, &didtypes.MsgCreateDIDRequest{Did: caseVariant(d1), Document: doc, VerificationMethodId: e.vmID(d1, 1), Signature: e.sign(doc, 0, 1), FromAddress: R2.Bech})
+		}},
+	)
 	// proofs that NAME a listed authentication key but are made with another key (or are junk): must never be accepted,
 	// whatever the type of the named key
 	ops = append(ops,
@@ -746,7 +772,7 @@ func idLabel(env *didEnv, id string) string {
 
 var didAssumptions = []string{
 	"alphabet: 2 DIDs, 3 secp256k1 DID keys, document shapes D1..D5 (+ empty-id / foreign-id documents where named), relayers R1/R2 that never own a DID key",
-	"the alphabet contains no duplicate verification-method ids (the only place where first-match-wins lookup could differ from the reference)",
+	"duplicate verification-method ids occur in two shapes only: D7 (embedded authentication method sharing its id with a top-level method of another key: the embedded key controls) and D8 (the same key listed twice under one id)",
 	"reference verdict: entry state + independent resolution of authentication keys + secp256k1 verification over proto(DataWithSeq{proto(content), seq})",
 }
 
